@@ -62,4 +62,12 @@ theorem C18_service_values_keep_no_state :
       Generated.carddavReceiverWriteTypes).all (fun t => !serviceTypes.contains t) = true := by
   decide
 
+/-- regenerated fact: no function of the four packages changes state of the whole PROCESS (umask, working directory,
+    environment, default logger, …) — not even for the duration of one call: what a request does to a resource cannot
+    depend, through the process, on what another goroutine is doing meanwhile (seeded change C18-o cleared the umask
+    while a COPY ran) -/
+theorem C18_no_process_state_touched :
+    Generated.internalProcessStateCalls = [] ∧ Generated.webdavProcessStateCalls = [] ∧
+    Generated.caldavProcessStateCalls = [] ∧ Generated.carddavProcessStateCalls = [] := by decide
+
 end GoWebdav.Props.C18
